@@ -337,6 +337,19 @@ class AnmRunner:
                 raise Violation("model_aliases_caller", "ANM.A shares memory with the caller's adjacency")
             if self.model.noise_distributions is self.noises or self.model.assignments is self.assign_list:
                 raise Violation("model_aliases_caller", "ANM keeps the caller's list object")
+            # a second model built from the very same array / lists / callable objects: the two models are independent objects
+            import sempler
+            twin = lib(sempler.ANM, A, self.assign_list, self.noises)
+            if twin.ok:
+                for a, b in zip(self.model.noise_distributions, twin.value.noise_distributions):
+                    if isinstance(a, ParamNoise) and (a is b or np.shares_memory(a.params, b.params)):
+                        raise Violation("models_share_storage", "two ANMs built from the same callable objects hold the SAME copy of a "
+                                        "noise object: changing one model changes the other")
+                for b in twin.value.noise_distributions:
+                    if isinstance(b, ParamNoise):
+                        b.params += 1000.0           # the owner of the second model edits it: the first must not notice
+                if np.shares_memory(np.asarray(twin.value.A), np.asarray(self.model.A)):
+                    raise Violation("models_share_storage", "two ANMs built from the same array share their adjacency")
             return
         if self.model is None:
             return
